@@ -1,0 +1,173 @@
+//go:build verif
+
+// Hooks for the deterministic simulation harness kept outside this repository.
+// This file only exists for the compiler under the "verif" build tag; it adds
+// accessors and nil-by-default function variables and changes no behaviour.
+
+package larking
+
+import (
+	"bytes"
+	"fmt"
+	"sort"
+	"strings"
+	"unsafe"
+
+	"google.golang.org/grpc"
+)
+
+// Function variables called by yield points that the harness inserts into
+// instrumented copies of this package at build time. All nil unless a
+// simulation installs them.
+var (
+	VerifYield    func(site string)
+	VerifLockGate func(addr unsafe.Pointer)
+	VerifLocked   func(addr unsafe.Pointer)
+	VerifUnlocked func(addr unsafe.Pointer)
+)
+
+func verifYield(site string) {
+	if f := VerifYield; f != nil {
+		f(site)
+	}
+}
+func verifLockGate(addr unsafe.Pointer) {
+	if f := VerifLockGate; f != nil {
+		f(addr)
+	}
+}
+func verifLocked(addr unsafe.Pointer) {
+	if f := VerifLocked; f != nil {
+		f(addr)
+	}
+}
+func verifUnlocked(addr unsafe.Pointer) {
+	if f := VerifUnlocked; f != nil {
+		f(addr)
+	}
+}
+
+// VerifRegisterService is RegisterService returning the error instead of
+// calling log.Fatalf.
+func VerifRegisterService(m *Mux, sd *grpc.ServiceDesc, ss interface{}) error {
+	return m.registerService(sd, ss)
+}
+
+// VerifSnapshot returns the currently published routing snapshot as an opaque
+// pointer (nil before the first registration).
+func VerifSnapshot(m *Mux) unsafe.Pointer {
+	return unsafe.Pointer(m.loadState())
+}
+
+// VerifFingerprint renders the structure of a snapshot captured with
+// VerifSnapshot: trie, handler table with handler identities, connections.
+func VerifFingerprint(p unsafe.Pointer) string {
+	s := (*state)(p)
+	if s == nil {
+		return "nil"
+	}
+	var b strings.Builder
+	b.WriteString(verifPathString(s.path))
+	b.WriteString("|handlers{")
+	names := make([]string, 0, len(s.handlers))
+	for name := range s.handlers {
+		names = append(names, name)
+	}
+	sort.Strings(names)
+	for _, name := range names {
+		fmt.Fprintf(&b, "%s:[", name)
+		for _, h := range s.handlers[name] {
+			fmt.Fprintf(&b, "%p ", h)
+		}
+		b.WriteString("]")
+	}
+	b.WriteString("}|conns{")
+	var conns []string
+	for cc, cl := range s.conns {
+		var hs []string
+		for _, h := range cl.handlers {
+			hs = append(hs, fmt.Sprintf("%p", h))
+		}
+		sort.Strings(hs)
+		conns = append(conns, fmt.Sprintf("%p:%x:%s", cc, cl.fdHash, strings.Join(hs, ",")))
+	}
+	sort.Strings(conns)
+	b.WriteString(strings.Join(conns, ";"))
+	b.WriteString("}")
+	return b.String()
+}
+
+// verifPathString is (*path).String extended with the '*' method binding and
+// the identity of every method entry.
+func verifPathString(p *path) string {
+	if p == nil {
+		return "path<nil>"
+	}
+	var s, sp, sv, sm []string
+	for k, pp := range p.segments {
+		sp = append(sp, "\""+k+"\":"+verifPathString(pp))
+	}
+	if len(sp) > 0 {
+		sort.Strings(sp)
+		s = append(s, "segments{"+strings.Join(sp, ",")+"}")
+	}
+	for _, vv := range p.variables {
+		sv = append(sv, "\"{"+vv.name+"}\"->"+verifPathString(vv.next))
+	}
+	if len(sv) > 0 {
+		s = append(s, "variables["+strings.Join(sv, ",")+"]")
+	}
+	for k, mm := range p.methods {
+		sm = append(sm, fmt.Sprintf("%q:%s@%p", k, mm.name, mm))
+	}
+	if len(sm) > 0 {
+		sort.Strings(sm)
+		s = append(s, "methods{"+strings.Join(sm, ",")+"}")
+	}
+	if p.methodAll != nil {
+		s = append(s, fmt.Sprintf("all:%s@%p", p.methodAll.name, p.methodAll))
+	}
+	return "path{" + strings.Join(s, ",") + "}"
+}
+
+// VerifHTTPBodyCodec returns the built-in google.api.HttpBody stream codec.
+func VerifHTTPBodyCodec() StreamCodec { return codecHTTPBody{} }
+
+// verifPoolNews counts pool misses. It is only touched from go:norace
+// functions so that counting adds no synchronisation a race detector could see.
+var verifPoolNews int
+
+//go:norace
+func verifCountNew() { verifPoolNews++ }
+
+//go:norace
+func verifNews() int { return verifPoolNews }
+
+func init() {
+	bytesNew, bufNew := bytesPool.New, bufPool.New
+	bytesPool.New = func() interface{} { verifCountNew(); return bytesNew() }
+	bufPool.New = func() interface{} { verifCountNew(); return bufNew() }
+}
+
+// VerifDrainPools empties the package-level buffer pools (call with a single P
+// and no concurrent users) so that a simulated run does not depend on what
+// earlier runs in the same process left behind.
+func VerifDrainPools() {
+	for n := verifNews(); n == verifNews(); {
+		bytesPool.Get()
+	}
+	for n := verifNews(); n == verifNews(); {
+		bufPool.Get()
+	}
+}
+
+// VerifWarmPools puts buffers of the given capacities into the pools.
+func VerifWarmPools(bytesCaps, bufCaps []int) {
+	for _, c := range bytesCaps {
+		b := make([]byte, 0, c)
+		bytesPool.Put(&b)
+	}
+	for _, c := range bufCaps {
+		bufPool.Put(bytes.NewBuffer(make([]byte, 0, c)))
+	}
+}
